@@ -27,8 +27,9 @@ CHECKS = {
  'C03': dict(
     text='Theorems (Coq): e@k evaluates e with every trace at index+k and, in range, puts back exactly the saved positions (restore_puts_back) whatever e does to them; '
          'out of range yields #f / error without moving; the whole evaluator leaves the index stack balanced (T-bal, induction over the evaluator); for a read-only e (T-ro fragment) '
-         'on one trace e@k is e at index i+k and the interpreter state afterwards is EXACTLY the state before. '
-         'PARTIAL: the composition law (e@j)@k = e@(j+k) is decided by the differential check, not by a theorem.' + DIFF,
+         'on one trace e@k is e at index i+k and the interpreter state afterwards is EXACTLY the state before, and the composition law (e@j)@k = e@(j+k) holds '
+         '(StackIndep.v: the fragment ignores the stack of saved positions). PARTIAL: composition for expressions outside the fragment and for several traces is decided by '
+         'the differential check.' + DIFF,
     technique='Coq proof (save/restore refinement, balanced-context induction) + differential correspondence + offset oracle'),
  'C04': dict(
     text='Theorems (Coq, any condition behaviour whose truth depends on the index only, any trace, any start index): (find c) and (find/g c) on one trace return exactly '
